@@ -185,6 +185,10 @@ class TaskScheduler(object):
 
     def _continue_with_task(self, task):
         task._resume_contexts()
+        if task.is_computed():
+            # resume() of one of the task's contexts raised; that error has already
+            # completed the task, so there is nothing left to continue.
+            return 0
         old_task = self.active_task
         self.active_task = task
 
